@@ -19,6 +19,11 @@ from .terms import T, REAL, INT, BOOL
 _SORT = {REAL: z3.RealSort, INT: z3.IntSort, BOOL: z3.BoolSort}
 
 
+_GLOBAL_PURE = {}        # id(term) -> z3 expr, for terms without axiomatised applications
+_IMPURE = set()
+_AXIOMATISED = ('sqrt', 'exp', 'log', 'cos', 'pow')
+
+
 class Z3Ctx:
     """Translation context. ``axioms`` collects the defining facts of the
     axiomatised functions (sqrt witness, exp/log facts, pi bounds) instantiated at the
@@ -45,10 +50,33 @@ class Z3Ctx:
         c = self.cache
         if id(t) in c:
             return c[id(t)]
-        for n in tm.postorder([t]):
+        g = _GLOBAL_PURE
+        if id(t) in g and not self.extra_axioms:
+            c[id(t)] = g[id(t)]
+            return g[id(t)]
+        # iterative post-order that does not descend into globally cached pure subterms
+        stack = [(t, False)]
+        shared = not self.extra_axioms
+        while stack:
+            n, done = stack.pop()
             if id(n) in c:
                 continue
-            c[id(n)] = self._node(n, [c[id(a)] for a in n.args])
+            if shared and id(n) in g:
+                c[id(n)] = g[id(n)]
+                continue
+            if not done:
+                stack.append((n, True))
+                for a in n.args:
+                    if id(a) not in c:
+                        stack.append((a, False))
+                continue
+            z = self._node(n, [c[id(a)] for a in n.args])
+            c[id(n)] = z
+            impure = (n.op == 'app' and n.data in _AXIOMATISED) or (n.op == 'var' and n.data == '__pi') or any(id(a) in _IMPURE for a in n.args)
+            if impure:
+                _IMPURE.add(id(n))
+            elif shared:
+                g[id(n)] = z
         return c[id(t)]
 
     def _node(self, n, a):
@@ -130,6 +158,38 @@ class Z3Ctx:
             self.axioms.extend(self.extra_axioms[name](n, a, e, self))
         prev.append((n, e))
         return e
+
+
+def build_solver(hyps, goal, extra_axioms=None):
+    """z3 solver holding  hyps ∧ axioms ∧ ¬goal"""
+    ctx = Z3Ctx(extra_axioms)
+    zh = [ctx.tr(h) for h in hyps]
+    zg = ctx.tr(goal)
+    s = z3.Solver()
+    for h in zh:
+        s.add(h)
+    for ax in ctx.axioms:
+        s.add(ax)
+    s.add(z3.Not(zg))
+    return s
+
+
+def check_solver(s, timeout_ms):
+    t0 = time.time()
+    s.set('timeout', int(timeout_ms))
+    try:
+        r = s.check()
+    except z3.Z3Exception as e:
+        return 'unknown', None, time.time() - t0, repr(e)
+    if r == z3.unsat:
+        return 'unsat', None, time.time() - t0, ''
+    if r == z3.sat:
+        try:
+            mdl = _extract_model(s)
+        except Exception as e:      # noqa
+            mdl = {'vars': {}, 'funcs': {}, 'error': repr(e)}
+        return 'sat', mdl, time.time() - t0, ''
+    return 'unknown', None, time.time() - t0, s.reason_unknown()
 
 
 def to_smt2(hyps, goal, extra_axioms=None):
